@@ -833,7 +833,9 @@ class ExcludeRegionState(object):  # pylint: disable=too-many-instance-attribute
         )
 
         newZ = self.position.Z_AXIS.nativeToLogical()
-        oldZ = self.lastPosition.Z_AXIS.nativeToLogical()
+        # Express the remembered (native) height in the current units/offsets, which may have changed
+        # since the region was entered (e.g. G20/G21), so both values are comparable
+        oldZ = self.position.Z_AXIS.nativeToLogical(self.lastPosition.Z_AXIS.current, True)
         moveZcmd = "G0 F{f} Z{z}".format(
             f=plainDecimal(self.feedRate / self.feedRateUnitMultiplier),
             z=plainDecimal(newZ)
